@@ -472,6 +472,7 @@ safe Version [C03]
 module upgrade
 props C16
 use common core
+use common vote
 dialect neovm
 
 // C16: the upgrade from versions before 0.16 re-serialises every legacy snapshot and candidate in the new Node layout
@@ -488,13 +489,12 @@ func getSnapshotCount(ctx) (r)
   ensures r == N(store)
 
 func switchToNotary(ctx)
-  trusted
   ensures forall k Bytes {store.opt(k)} :: k != "notary" && k != "innerring" && k != "ballots" ==> store.opt(k) == old(store).opt(k)
   ensures notifs == old(notifs)
 
 func setConfig(ctx, key, val)
-  trusted
   ensures notifs == old(notifs)
+  ensures forall k Bytes {store.opt(k)} :: !prefix("config", k) ==> store.opt(k) == old(store).opt(k)
 
 func _deploy(data, isUpdate)
   requires 0 <= N(store) && N(store) <= 255
